@@ -205,7 +205,8 @@ func checkFieldAssignment(
 		return nil
 	}
 
-	if ctx.constructors.Match(pkgPath, *ctx.currentFunction, typeName) {
+	// Constructors must live in the same package as the type
+	if pkgPath == ctx.pass.Pkg.Path() && ctx.constructors.Match(pkgPath, *ctx.currentFunction, typeName) {
 		return nil
 	}
 
@@ -259,7 +260,8 @@ func checkIndexAssignment(
 		return nil
 	}
 
-	if ctx.constructors.Match(pkgPath, *ctx.currentFunction, typeName) {
+	// Constructors must live in the same package as the type
+	if pkgPath == ctx.pass.Pkg.Path() && ctx.constructors.Match(pkgPath, *ctx.currentFunction, typeName) {
 		return nil
 	}
 
@@ -335,7 +337,8 @@ func checkFieldIncDec(
 		return nil
 	}
 
-	if ctx.constructors.Match(pkgPath, *ctx.currentFunction, typeName) {
+	// Constructors must live in the same package as the type
+	if pkgPath == ctx.pass.Pkg.Path() && ctx.constructors.Match(pkgPath, *ctx.currentFunction, typeName) {
 		return nil
 	}
 
@@ -456,7 +459,8 @@ func checkCompoundLHS(
 		return nil
 	}
 
-	if ctx.constructors.Match(pkgPath, *ctx.currentFunction, typeName) {
+	// Constructors must live in the same package as the type
+	if pkgPath == ctx.pass.Pkg.Path() && ctx.constructors.Match(pkgPath, *ctx.currentFunction, typeName) {
 		return nil
 	}
 
